@@ -627,8 +627,8 @@ func TestProp(t *testing.T) {
 		"liveness is checked as 'returns within 10 s' (the calls need microseconds); schedules are whatever the Go scheduler produces around deterministically constructed queue states",
 		"PollEvent after Fini may first hand out events that were already queued (at most the queue capacity) before returning nil",
 		"a poller blocked in PollEvent on a suspended (not finalised) screen is legitimate and is woken by the harness")
-	pbt.Check(t, "shutdown", pbt.Pick(250, 2500), pbt.Spec[Case]{Gen: genCase, Prop: prop, NonTrivial: nonTrivial, Classes: classes})
-	pbt.Check(t, "devtty", pbt.Pick(24, 600), pbt.Spec[DevCase]{Gen: genDev, Prop: devProp,
+	pbt.Check(t, "shutdown", pbt.Pick(180, 2500), pbt.Spec[Case]{Gen: genCase, Prop: prop, NonTrivial: nonTrivial, Classes: classes})
+	pbt.Check(t, "devtty", pbt.Pick(16, 600), pbt.Spec[DevCase]{Gen: genDev, Prop: devProp,
 		NonTrivial: func(c DevCase) bool { return c.Storm && c.Cycles >= 5 },
 		Classes: func(c DevCase) []string {
 			out := []string{"devtty:pty"}
